@@ -197,7 +197,7 @@ def parse (g : GramCfg) (ts : Toks) : Option Tree :=
 /-- the configuration of the grammar the property was written against -/
 def canonical : GramCfg :=
   { prefixOps := [("next", "Next"), ("eventually", "Eventually"), ("always", "Always")],
-    groupFollow := ["until", "or", "and", ")", ";", "<nl>"],
+    groupFollow := ["until", "or", "and", "implies", ")", ";", "<nl>"],
     impliesRhsPrefix := true, orOperandPrefix := true, andOperandPrefix := true, notOperandPrefix := true }
 
 end Scenic.LTL.Syntax
